@@ -288,11 +288,9 @@ func TestVerifC14Keystore(t *testing.T) {
 	n := vfEnvInt("VERIF_N", 100)
 	only := zzc14.Only(3, vfOnly())
 	cs := vfNewCases("Run_C14", 50)
-	curComp, curDesc := "CKeystore", map[string]any{}
+	curDesc := map[string]any{}
 	zzc14.OnHang(func(label, stacks string) {
-		idx := cs.Add(zzc14.HangTerm(curComp), curDesc, "hang")
-		cs.Fail(idx, "the case never settled (goroutines blocked outside synctest's view): "+label, stacks)
-		_ = cs.Flush()
+		zzc14.WriteHang(vfOutDir(), label, curDesc, stacks)
 	})
 	root := vfNewRand(seed)
 	for i := 0; i < n; i++ {
@@ -305,7 +303,7 @@ func TestVerifC14Keystore(t *testing.T) {
 		if c.kind != "ks" {
 			comp = "CResettable"
 		}
-		curComp, curDesc = comp, map[string]any{"case": zzc14.CaseID(3, i), "seed": seed, "pkg": "provider/keystore", "comp": c.kind, "ops": c.ops, "closeAt": c.closeAt}
+		curDesc = map[string]any{"case": zzc14.CaseID(3, i), "seed": seed, "pkg": "provider/keystore", "comp": c.kind, "ops": c.ops, "closeAt": c.closeAt}
 		tr := &zzc14.Trace{}
 		var plan *zzc14.Plan
 		var note string
